@@ -241,6 +241,13 @@ func init() {
 		call(fr.i, fr, 0, a[0], nil)
 		return tuple{"", false}
 	}
+	// verifUseRepl(names...): activate the verifRepl_<name> replacements for this path
+	H["verifUseRepl"] = func(fr *frame, a []value) value {
+		for _, n := range fr.i.ex.strs(strSlice(a[0])) {
+			fr.i.ex.replOn[n] = true
+		}
+		return nil
+	}
 	H["verifSetMapOrder"] = func(fr *frame, a []value) value {
 		fr.i.ex.mapOrder = int(asInt64(a[0]))
 		return nil
